@@ -334,3 +334,10 @@ Theorem C10_full_refuted_fixed : ~ C10_full true.
 Proof. exact (counterexample_refutes _ _ _ _ _ _ _ psk_hrr_counterexample). Qed.
 Theorem C10_full_refuted_unfixed : ~ C10_full false.
 Proof. exact (counterexample_refutes _ _ _ _ _ _ _ second_share_counterexample). Qed.
+
+(* UConn.Write reports every byte it was given, with or without the 1/n-1 split *)
+Lemma uconn_write_all vers cbc len : uconn_write vers cbc len = len.
+Proof.
+  unfold uconn_write. destruct ((1 <? len) && (vers <=? V10) && cbc) eqn:E; [|reflexivity].
+  apply andb_true_iff in E as [E _]. apply andb_true_iff in E as [E _]. apply N.ltb_lt in E. lia.
+Qed.
